@@ -504,7 +504,8 @@ func (s *c08State) tamperInclusion(what string, ip [][32]byte, i, j int, leaves 
 func (s *c08State) tamperConsistency(what string, cp [][32]byte, i, j int, roots [][32]byte) {
 	r := s.r
 	n := len(roots) - 1
-	if q, how := mutateProof(r, cp); q != nil && i < j {
+	// (for i == j the honest proof is the frontier of the tree and is evaluated against both roots too)
+	if q, how := mutateProof(r, cp); q != nil && (i < j || len(cp) > 0) && !sameTerms(q, cp) {
 		acc := false
 		pv, _ := r.Catch(func() { acc = ahtree.VerifyConsistency(q, uint64(i), uint64(j), roots[i], roots[j]) })
 		if pv != nil {
@@ -615,4 +616,16 @@ func (s *c08State) c08HTree() {
 			}
 		}
 	}
+}
+
+func sameTerms(a, b [][32]byte) bool {
+	if len(a) != len(b) {
+		return false
+	}
+	for i := range a {
+		if a[i] != b[i] {
+			return false
+		}
+	}
+	return true
 }
